@@ -142,9 +142,11 @@ TreesOfShape(n, par) == {MkTree(n, par, lab) : lab \in {l \in [1..(n - 1) -> Lab
 SaneTrees == UNION {UNION {TreesOfShape(n, par) : par \in Shapes(n)} : n \in 1..MaxNodes}
 (* single parent-field corruptions: parent of node i set to any node id or removed; the root given a parent *)
 WithParent(T, i, hp, pv) == [T EXCEPT !.nodes[i + 1].hp = hp, !.nodes[i + 1].parent = pv]
-ParentCorrupted == UNION {UNION {{WithParent(T, i, TRUE, pv) : pv \in 0..(NN(T) - 1)} \cup {WithParent(T, i, FALSE, 0)}
+(* (guarded: TLC evaluates every constant definition at start-up, also the unused ones) *)
+ParentCorrupted == IF Corrupt # "parent" THEN {} ELSE
+                   UNION {UNION {{WithParent(T, i, TRUE, pv) : pv \in 0..(NN(T) - 1)} \cup {WithParent(T, i, FALSE, 0)}
                                  : i \in 0..(NN(T) - 1)} : T \in SaneTrees}
-Trees == IF Corrupt = "parent" THEN SaneTrees \cup ParentCorrupted ELSE SaneTrees
+Trees == SaneTrees \cup ParentCorrupted
 TreeList == SetToSeq(Trees)
 
 VARIABLES ti,       \* index into TreeList          (inputs, constant along a behaviour)
